@@ -258,6 +258,7 @@ def r3_common_range(ctx, RULE='R3.common-range'):
     fc = repo.func(U, 'find_common_range')
     ev = Evaluator(repo, fc, no_inline={'filter_valid_amp_bands', 'remove_duplicates', 'calculate_spacing'}).run_function()
     found = False
+    pair_loops = []
     for lid, lb in ev.loop_bodies.items():
         post = lb['post']
         if not isinstance(lb['node'], ast.For):
@@ -274,9 +275,21 @@ def r3_common_range(ctx, RULE='R3.common-range'):
             for hi_n in his:
                 keep = [n for n in walk_no_nested(lb['node']) if isinstance(n, ast.If) and isinstance(n.test, ast.Compare) and
                         ast.unparse(n.test) in (f'{lo_n} < {hi_n}', f'{hi_n} > {lo_n}')]
-                found = found or bool(keep)
+                if keep:
+                    found = True
+                    # EVERY pair is intersected: neither this loop nor the loops around it can be left early
+                    cur = lb['node']
+                    while cur is not None and cur is not fc.node:
+                        if isinstance(cur, (ast.For, ast.While)):
+                            pair_loops.append(cur)
+                        cur = getattr(cur, '_parent', None)
     ctx.check(RULE, f'{site(fc)} pairwise intersection', bool(found), key(fc, 'intersection'),
               'the common range is not the pairwise intersection [max(f_min), min(f_max)] kept when non-empty')
+    early = [x for lp_ in pair_loops for x in ast.walk(lp_) if isinstance(x, (ast.Break, ast.Continue, ast.Return))]
+    ctx.check(RULE, f'{site(fc)} every pair of bands', bool(pair_loops) and not early, key(fc, 'all-pairs'),
+              'the intersection loops can be left early: a band of one amplifier is then intersected with only the first matching band of '
+              'the next (a multi-band amplifier after a wide one would lose a whole band, depending on amplifier order)',
+              '; '.join(f'line {x.lineno}' for x in early))
     outer = [n for n in walk_no_nested(fc.node) if isinstance(n, ast.For) and isinstance(n.iter, ast.Name)]
     it_all = any(isinstance(stmt_of(fc, c), ast.Assign) and stmt_of(fc, c).targets[0].id == n.iter.id
                  for n in outer for c in calls_to(fc, {'remove_duplicates'}))
